@@ -35,6 +35,10 @@ def build(rng, root):
                           "o.TXT", "n.txt", "m.Txt"], rng.randint(3, 9)):
         if nm not in used:
             nodes.append({"path": nm, "kind": "file", "size": rng.choice([1, 2, 5, 7])})
+    # sparse files whose sizes add up beyond 2^53 with odd low bits, spread over two extensions
+    if rng.random() < 0.25:
+        for k, sz in enumerate([2 ** 52 + 1, 2 ** 52 + 3, 2 ** 52 + 7, 2 ** 51 + 1]):
+            nodes.append({"path": "vast%d.%s" % (k, "bin" if k % 2 else "img"), "kind": "file", "size": sz, "sparse": True})
     tree.materialise(root, nodes)
 
 
